@@ -22,8 +22,8 @@ TIMEOUT = {'quick': 1000, 'thorough': 3500}
 N_GROUPS = {'quick': 32, 'thorough': 640}
 GROUP = 8
 RULE = ('cases: seeded batch_run calls on a self-identifying fixture model: grids of 1-4 parameters (1-12 combinations; lists, tuples, ranges, '
-        'scalar and string parameters, dict or ParameterList input), repetitions 1-3, max_timesteps below / at / above the runs\' own '
-        'completion time (and unlimited), collectors given as one name or 2-3 names, process counts 1..16, per-run sleeps of 0-3 ms so that '
+        'scalar and string parameters, dict or ParameterList input - the latter also after an earlier build and a parameter removal), repetitions 1-3, max_timesteps below / at / above the runs\' own '
+        'completion time (and unlimited), collectors given as one name, 2-3 names or not at all, process counts 1..16, per-run sleeps of 0-3 ms so that '
         'completion order is permuted; plus fault batches: an exception injected in the constructor or at timestep k of the n-th '
         'construction, for every n of the batch, with 1 and k processes. Offline oracle over the returned records: result count == '
         '|product| x repetitions; each result carries exactly one run uuid, uuids pairwise distinct, collector ids match the request; the '
@@ -34,7 +34,7 @@ ASSUMPTIONS = ['fault position = n-th model construction (global ordinal claimed
                'process and approximates it for several', 'a hung pool is reported as inconclusive by the watchdog, not as a violation']
 FLOORS = {'quick': {'batches': 100, 'executions_checked': 350, 'records_checked': 1500, 'fault_batches': 30, 'faults_propagated': 30,
                     'multi_process_batches': 50, 'reordered_batches': 5, 'serial_order_checks': 10, 'limit_below_completion': 15,
-                    'limit_above_completion': 15, 'multi_collector_batches': 20, 'procs_1': 20, 'procs_2_4': 20, 'procs_5_8': 8, 'procs_9_16': 8},
+                    'limit_above_completion': 15, 'multi_collector_batches': 20, 'no_collector_batches': 8, 'parameter_list_with_history': 15, 'procs_1': 20, 'procs_2_4': 20, 'procs_5_8': 8, 'procs_9_16': 8},
           'thorough': {'batches': 3000, 'fault_batches': 1000, 'reordered_batches': 200, 'procs_9_16': 200}}
 EXHAUSTIVE = {}
 HUNG = []
@@ -90,8 +90,12 @@ def gen_spec(rng, sid, fault_ordinal=None, base=None):
         sel = rng.choice(['one', 'many'])
         collectors = rng.choice(all_ids) if sel == 'one' else rng.sample(all_ids, rng.randint(1, len(all_ids)))
         procs = rng.choice([1, 1, 2, 3, 4, 5, 6, 8, 12, 16, rng.randint(2, 16)])
+        if rng.random() < 0.15:
+            collectors = None             # no data requested: every execution must still run, and a failure must still surface
+        use_pl = rng.random() < 0.4
         base = dict(grid=grid, repetitions=reps, stop=stop, max_timesteps=lim, collector_ids=all_ids, collectors=collectors, processes=procs,
-                    use_parameter_list=rng.random() < 0.4, explicit_reps=rng.random() < 0.5)
+                    use_parameter_list=use_pl, explicit_reps=rng.random() < 0.5,
+                    pl_history=use_pl and rng.random() < 0.5)   # the ParameterList was built before and a parameter removed since
     spec = dict(base)
     spec['id'] = sid
     spec['delays'] = [rng.choice([0, 0.001, 0.002, 0.003, 0.0005]) for _ in range(rng.randint(2, 7))]
@@ -169,6 +173,8 @@ def check_batch(ctx, spec, out):
         ctx.count('limit_above_completion')
     if spec['processes'] > 1:
         ctx.count('multi_process_batches')
+    if spec.get('pl_history'):
+        ctx.count('parameter_list_with_history')
     ctx.state(('procs', spec['processes']))
     pc = spec['processes']
     ctx.count('procs_1' if pc == 1 else ('procs_2_4' if pc <= 4 else ('procs_5_8' if pc <= 8 else 'procs_9_16')))
@@ -188,6 +194,11 @@ def check_batch(ctx, spec, out):
     if 'raised' in out:
         raise CaseViolation(f'batch_run raised {out["raised"]} although no execution failed', **detail)
     res = out['result']
+    if spec['collectors'] is None:
+        ctx.count('no_collector_batches')
+        check(res is None or res == [], f'batch_run without collectors returned {res!r}', **detail)
+        check(out['constructions'] == n, f'{out["constructions"]} models were built for {n} executions (no collectors requested)', **detail)
+        return
     check(isinstance(res, list), 'batch_run did not return a list', **detail)
     if len(res) != n:
         raise CaseViolation(f'batch_run returned {len(res)} results for {len(combos)} combinations x {reps} repetitions', **detail)
